@@ -140,22 +140,40 @@ Definition set_defs (kd : kind) (l : alist) (p : program) : program :=
 Definition set_body (b : list instr) (p : program) : program := mk (fun kd => defs kd p) b (used p).
 Definition set_used (u : list N) (p : program) : program := mk (fun kd => defs kd p) (body p) u.
 
-(** [Program::add_instruction] *)
-Definition add_instruction (p : program) (i : instr) : program :=
+(** [Program::to_instructions]: the concatenation order, literally *)
+Definition to_instructions (p : program) : list instr :=
+  vals (externs p) ++ vals (regions p) ++ vals (frames p) ++ vals (waveforms p) ++
+  vals (cals p) ++ vals (mcals p) ++ vals (gates p) ++ vals (circuits p) ++ body p.
+
+(** [rebuild_used_qubits] *)
+Definition rebuild_used (p : program) : program :=
+  set_used (flat_map gq (to_instructions p)) p.
+
+Definition is_cal_kind (kd : kind) : bool := match kd with KCal | KMCal => true | _ => false end.
+
+(** [add_instruction] without the cache rebuild: extend the cache, then route *)
+Definition add_raw (p : program) (i : instr) : program :=
   let p1 := set_used (used p ++ gq i) p in
   match route i with
   | Some (kd, k) => set_defs kd (ins k i (defs kd p1)) p1
   | None => set_body (body p1 ++ [i]) p1
   end.
 
+(** does adding [i] replace an existing calibration ([CalibrationSet::replace] returns [Some])? *)
+Definition replaces_cal (p : program) (i : instr) : bool :=
+  match route i with
+  | Some (kd, k) => is_cal_kind kd && memN k (keys (defs kd p))
+  | None => false
+  end.
+
+(** [Program::add_instruction] (with repair 1fc8c68: the cache is rebuilt when a calibration was
+    replaced) *)
+Definition add_instruction (p : program) (i : instr) : program :=
+  if replaces_cal p i then rebuild_used (add_raw p i) else add_raw p i.
+
 (** [add_instructions], [from_instructions], [From<Vec<Instruction>>], the [FromStr] builder *)
 Definition add_instructions (p : program) (is : list instr) : program := fold_left add_instruction is p.
 Definition from_instructions (is : list instr) : program := add_instructions empty is.
-
-(** [Program::to_instructions]: the concatenation order, literally *)
-Definition to_instructions (p : program) : list instr :=
-  vals (externs p) ++ vals (regions p) ++ vals (frames p) ++ vals (waveforms p) ++
-  vals (cals p) ++ vals (mcals p) ++ vals (gates p) ++ vals (circuits p) ++ body p.
 
 (** [Program::into_instructions] (after the repair: extern pragmas first, like [to_instructions]) *)
 Definition into_instructions (p : program) : list instr :=
@@ -170,19 +188,23 @@ Definition into_instructions (p : program) : list instr :=
 
 Definition body_instructions (p : program) : list instr := body p.
 
-(** [AddAssign]: every map is extended, bodies appended, caches united *)
-Definition add_assign (a b : program) : program :=
+(** [AddAssign] without the cache rebuild: every map is extended, bodies appended, caches united *)
+Definition add_assign_raw (a b : program) : program :=
   mk (fun kd => extend (defs kd a) (defs kd b)) (body a ++ body b) (used a ++ used b).
+
+Definition cal_count (p : program) : nat := length (cals p) + length (mcals p).
+
+(** [AddAssign] (with repair 1fc8c68: if the calibration count shows that a calibration was
+    replaced, the cache is rebuilt) *)
+Definition add_assign (a b : program) : program :=
+  let r := add_assign_raw a b in
+  if Nat.ltb (cal_count r) (cal_count a + cal_count b) then rebuild_used r else r.
 
 (** [Add]: [self += rhs; self] *)
 Definition add (a b : program) : program := let a' := add_assign a b in a'.
 
 (** [clone_without_body_instructions]: definitions kept, body and cache emptied *)
 Definition clone_without_body (p : program) : program := mk (fun kd => defs kd p) [] [].
-
-(** [rebuild_used_qubits] *)
-Definition rebuild_used (p : program) : program :=
-  set_used (flat_map gq (to_instructions p)) p.
 
 (** ** Placeholder resolution ([default_qubit_resolver], [resolve_placeholders]) *)
 
@@ -386,11 +408,20 @@ Definition body_part (l : list instr) : list instr := filter is_body l.
 (** observed: listing and (sorted) used set of a program *)
 Definition obs := (list instr * list N)%type.
 
+Definition cal_len (l : list instr) : nat := length (kind_part KCal l) + length (kind_part KMCal l).
+
+(** did the concatenation replace a calibration (the implementation's own test, on the listings)? *)
+Definition replaced_obs (a b ab : obs) : bool :=
+  Nat.ltb (cal_len (fst ab)) (cal_len (fst a) + cal_len (fst b)).
+
 Definition chk_concat (a b ab : obs) : bool :=
   instrs_eqb (body_part (fst ab)) (body_part (fst a) ++ body_part (fst b)) &&
   forallb (fun kd => instrs_eqb (kind_part kd (fst ab))
                                 (vals (merge (sel kd (fst a)) (sel kd (fst b))))) all_kinds &&
-  seteqb (snd ab) (snd a ++ snd b).
+  (* the used-qubit set is the union; when a calibration of [a] was replaced the cache is rebuilt
+     from the listing instead (the union may contain qubits of the replaced calibration) *)
+  (if replaced_obs a b ab then seteqb (snd ab) (flat_map gq (fst ab))
+   else seteqb (snd ab) (snd a ++ snd b)).
 
 Definition obs_eqb (x y : obs) : bool := instrs_eqb (fst x) (fst y) && seteqb (snd x) (snd y).
 
@@ -450,7 +481,7 @@ Definition def_instrs (p : program) : list instr := flat_map (fun kd => vals (de
 
 (** class codes *)
 Definition K_RESET : N := 1.    (* clone-without-body-cache *)
-Definition K_STALE : N := 2.    (* redefinition-stale-qubits *)
+Definition K_STALE : N := 2.    (* redefinition-stale-qubits: repaired by 1fc8c68, no longer a class *)
 Definition K_FRAME : N := 3.    (* framedef-qubits-uncounted *)
 Definition K_CIRC : N := 4.     (* circuitdef-qubits-uncounted (DEFCIRCUIT, DEFGATE AS SEQUENCE) *)
 
@@ -459,57 +490,40 @@ Definition uncounted (i : instr) : list N :=
   if subsetb (qubits_of i) (gq i) then []
   else match i with FrameDef _ _ _ => [K_FRAME] | _ => [K_CIRC] end.
 
-(** adding [i] rebinds a key whose old value reports a qubit that the new value does not *)
-Definition stale_add (p : program) (i : instr) : list N :=
-  match route i with
-  | Some (kd, k) =>
-      match lookup k (defs kd p) with
-      | Some old => if subsetb (gq old) (gq i) then [] else [K_STALE]
-      | None => []
-      end
-  | None => []
-  end.
-
-Fixpoint hits_adds (p : program) (is : list instr) : list N :=
+Fixpoint hits_adds (is : list instr) : list N :=
   match is with
   | [] => []
-  | i :: t => uncounted i ++ stale_add p i ++ hits_adds (add_instruction p i) t
+  | i :: t => uncounted i ++ hits_adds t
   end.
 
 (** the cache is emptied while the retained definitions report qubits *)
 Definition reset_hit (p : program) : list N :=
   match listing_gq (def_instrs p) with [] => [] | _ => [K_RESET] end.
 
-Definition stale_concat (a b : program) : list N :=
-  flat_map (fun kd =>
-    flat_map (fun kv => match lookup (fst kv) (defs kd a) with
-                        | Some old => if subsetb (gq old) (gq (snd kv)) then [] else [K_STALE]
-                        | None => []
-                        end) (defs kd b)) all_kinds.
+(** is the instruction a calibration definition? *)
+Definition is_cal_instr (i : instr) : bool :=
+  match route i with Some (kd, _) => is_cal_kind kd | None => false end.
 
 Definition hits (p : program) (o : op) : list N :=
   match o with
-  | OAdd i => hits_adds p [i]
-  | OAddMany is => hits_adds p is
-  | OConcat is => hits_adds empty is ++ stale_concat p (from_instructions is)
+  | OAdd i => hits_adds [i]
+  | OAddMany is => hits_adds is
+  | OConcat is => hits_adds is
   | OConcatSelf => []
   | OCloneWithoutBody => reset_hit (clone_without_body p)
   | OResolve => []
-  | OExpandCal out => reset_hit (clone_without_body p) ++ hits_adds (clone_without_body p) out
+  | OExpandCal out => reset_hit (clone_without_body p) ++ hits_adds out
   | OExpandSeq kg out =>
-      let c := clone_without_body (set_defs KGate (keep kg (gates p)) p) in
-      reset_hit c ++ hits_adds c out
+      reset_hit (clone_without_body (set_defs KGate (keep kg (gates p)) p)) ++ hits_adds out
   | OSimplify ke kf kw out =>
       (* the calibrations are dropped afterwards, so the emptied cache is only wrong if the
-         expansion output itself contains a qubit-reporting definition *)
-      hits_adds (clone_without_body p) out ++
-      (if existsb (fun i => negb (is_body i) && negb (match gq i with [] => true | _ => false end)) out
-       then [K_RESET] else [])
+         expansion output itself contains a calibration definition *)
+      hits_adds out ++ (if existsb is_cal_instr out then [K_RESET] else [])
   | OWrapInLoop n h f =>
       match n with
       | 1%N => []
       | 0%N => reset_hit (clone_without_body p)
-      | _ => reset_hit (clone_without_body p) ++ hits_adds (clone_without_body p) (h ++ body p ++ f)
+      | _ => reset_hit (clone_without_body p) ++ hits_adds (h ++ body p ++ f)
       end
   | ORoundTrip | ORoundTripInto => []
   end.
@@ -544,15 +558,9 @@ Definition chk_views (is : list instr) (toi intoi bodyi : list instr) (rt : list
     forallb (fun kv => memN (fst kv) (keys part)) (sel kd is)) all_kinds &&
   instrs_eqb rt toi.
 
-(** the stale-cache class of C10 (a calibration rebound so that a qubit reported by the old value
-    is not reported by the new one): the only way the rebuilt program's cache differs from the
-    original's; the defect is reported once, under C10, so the "equal program" clause is not
-    evaluated on sequences in the class *)
-Definition stale_seq (is : list instr) : bool := existsb (N.eqb K_STALE) (hits_adds empty is).
-
 Definition c09_verdict (c : c09_case) : N :=
   let '(is, (toi, intoi, bodyi, u), ort, e) := c in
-  let ok_prop := chk_views is toi intoi bodyi (fst ort) && (stale_seq is || (seteqb (snd ort) u && e)) in
+  let ok_prop := chk_views is toi intoi bodyi (fst ort) && seteqb (snd ort) u && e in
   if negb ok_prop then 2%N
   else
     let p := from_instructions is in
@@ -564,24 +572,48 @@ Definition c09_verdict (c : c09_case) : N :=
 
 Definition c09_failing (cs : list c09_case) : list (N * N) := failing_from c09_verdict 0%N cs.
 
+(** [DefaultHandler::matching_frames] for a [RESET] without qubit (the observable through which the
+    cache influences scheduling): used = the frames whose qubits are exactly the cached used-qubit
+    set, blocked = the other frames sharing a qubit with it.  Frame keys, in frame order. *)
+Definition frame_key (i : instr) : N := match route i with Some (_, k) => k | None => 0%N end.
+
+Definition frames_matching (u : list N) (fr : list instr) : list N * list N :=
+  (map frame_key (filter (fun i => seteqb (qubits_of i) u) fr),
+   map frame_key (filter (fun i => existsb (fun q => memN q u) (qubits_of i)
+                                   && negb (seteqb (qubits_of i) u)) fr)).
+
+Definition reset_match (p : program) : list N * list N := frames_matching (used p) (vals (frames p)).
+
+(** the same, computed from the content (the listing) alone *)
+Definition content_reset_match (l : list instr) : list N * list N :=
+  frames_matching (listing_qubits l) (kind_part KFrame l).
+
+Definition match_eqb (a b : list N * list N) : bool := seteqb (fst a) (fst b) && seteqb (snd a) (snd b).
+
 (** case: mode, the first known class the harness computed for the two histories (0 = none), two
-    histories, the observations of their final states, the [==] verdict between them.
+    histories, the observations of their final states, the [==] verdict between them, the RESET
+    frame matches of the two final states.
     [mode = 0]: correspondence only (model = implementation, and the harness's class computation
     agrees with [all_hits]); [mode = 1]: the property on the implementation's output: cache =
-    qubits of the listing for both, and equal listings imply [==]. *)
-Definition c10_case := (N * N * list op * list op * obs * obs * bool)%type.
+    qubits of the listing for both, RESET matching determined by the listing, and equal listings
+    imply [==]. *)
+Definition c10_case :=
+  (N * N * list op * list op * obs * obs * bool * (list N * list N) * (list N * list N))%type.
 
 Definition chk_cache (o : obs) : bool := seteqb (snd o) (listing_qubits (fst o)).
 
 Definition first_class (h1 h2 : list op) : N := hd 0%N (all_hits h1 ++ all_hits h2).
 
 Definition c10_verdict (c : c10_case) : N :=
-  let '(mode, cls, h1, h2, o1, o2, e) := c in
+  let '(mode, cls, h1, h2, o1, o2, e, r1, r2) := c in
   if N.eqb mode 0 then
     let p := run h1 in let q := run h2 in
     if obs_eqb (obs_of p) o1 && obs_eqb (obs_of q) o2 && Bool.eqb (prog_eqb p q) e
+       && match_eqb (reset_match p) r1 && match_eqb (reset_match q) r2
        && N.eqb (first_class h1 h2) cls then 0%N else 1%N
   else
-    if chk_cache o1 && chk_cache o2 && (negb (instrs_eqb (fst o1) (fst o2)) || e) then 0%N else 2%N.
+    if chk_cache o1 && chk_cache o2 && (negb (instrs_eqb (fst o1) (fst o2)) || e)
+       && match_eqb (content_reset_match (fst o1)) r1 && match_eqb (content_reset_match (fst o2)) r2
+    then 0%N else 2%N.
 
 Definition c10_failing (cs : list c10_case) : list (N * N) := failing_from c10_verdict 0%N cs.
